@@ -23,6 +23,9 @@ from ..settings_gen import SETTINGS_PATH, VERSION_PATH, EVO_DIR, WORK
 
 PARSE_PRELOAD = vproc.PRELOAD_START + ("evo.core", "evo.core.units",
                                        "evo.entry_points")
+PLOT_PRELOAD = ("evo.core.transformations", "evo.core.lie_algebra",
+                "evo.core.geometry", "evo.core.filters",
+                "evo.core.trajectory", "evo.tools.user", "evo.tools.plot")
 
 
 # --------------------------------------------------------------- commands
@@ -41,6 +44,16 @@ def cmd_parse(sim, vp, cmd, res):
     if hasattr(args, "config"):
         args = sys.modules["evo.entry_points"].merge_config(args)
     res["namespace"] = dict(vars(args))
+    if cmd.get("import_plot"):
+        # what main_*.run() does next: import the plotting module, which
+        # configures matplotlib / seaborn from SETTINGS at import time
+        import matplotlib as mpl
+        for name in PLOT_PRELOAD:
+            vproc.load_module(name)
+        res["rc"] = {k: mpl.rcParams[k] for k in (
+            "lines.linewidth", "legend.loc", "font.family", "text.usetex",
+            "pgf.texsystem")}
+        res["rc"]["backend"] = mpl.get_backend()
 
 
 def cmd_lock(sim, vp, cmd, res):
@@ -418,6 +431,7 @@ class C18(Check):
         "generate_int_option", "generate_negative_number",
         "generate_multi_value", "generate_overwrite_prompt",
         "run_c_overrode_cli", "run_c_overrode_settings", "lock_refused",
+        "run_c_plot_import_checked",
     )
 
     def setup_worker(self):
@@ -431,6 +445,10 @@ class C18(Check):
             for s in sg.SAFE_STR["pygments_style"]:
                 get_style_by_name(s)
             import numpy  # noqa (evo.core.units)
+            import matplotlib.pyplot  # noqa (evo.tools.plot)
+            import mpl_toolkits.mplot3d.art3d  # noqa
+            import matplotlib.backends.backend_pdf  # noqa
+            import matplotlib.backends.backend_svg  # noqa
         except Exception as e:  # pragma: no cover
             raise HarnessError(f"cannot pre-import third-party modules: {e}")
         vproc.install_patches()
@@ -973,8 +991,16 @@ class C18(Check):
             return None
         cfg = plain_dict(model.files[op["config"]])
         pos = ([op["sub"]] if op["sub"] else []) + list(op["positional"])
+        # the settings this run will see: durable ones, overridden by the
+        # matching keys of the config file
+        effective = dict(plain_dict(model.settings or self.dflt))
+        if model.settings is None or model.version != model.cur_version:
+            for k, v in self.dflt.items():
+                effective.setdefault(k, v)
+        effective.update({k: v for k, v in cfg.items() if k in effective})
+        import_plot = sg.plot_import_safe(effective)
         cmds = [
-            {"cmd": "parse", "app": op["app"],
+            {"cmd": "parse", "app": op["app"], "import_plot": import_plot,
              "argv": pos + list(op["argv"]) + ["-c", op["config"]]},
             {"cmd": "parse", "app": op["app"], "argv": pos + list(op["argv"])},
             {"cmd": "start"},
@@ -1018,6 +1044,33 @@ class C18(Check):
         for k in ms:
             if k not in st:
                 return self._fail("run_c", "settings-key-lost", key=k)
+        # settings that evo.tools.plot consumes when it is imported must be the
+        # overridden ones as well
+        rc = results[0].get("rc")
+        if rc is not None:
+            sim.probe("run_c_plot_import_checked")
+            want = {
+                "lines.linewidth": float(st["plot_linewidth"]),
+                "legend.loc": st["plot_legend_loc"],
+                "font.family": [st["plot_fontfamily"]],
+                "text.usetex": st["plot_usetex"],
+                "pgf.texsystem": st["plot_texsystem"],
+            }
+            for k, v in want.items():
+                if rc[k] != v and not (k == "lines.linewidth"
+                                       and float(rc[k]) == v):
+                    return self._fail(
+                        "run_c", "import-time-setting-not-overridden",
+                        rc_key=k, expected=v, actual=rc[k],
+                        overridden_by_config=sorted(
+                            k2 for k2 in cfg if k2 in sg.PLOT_IMPORT_KEYS))
+            if str(rc["backend"]).lower() != str(
+                    st["plot_backend"]).lower():
+                return self._fail("run_c",
+                                  "import-time-setting-not-overridden",
+                                  rc_key="backend",
+                                  expected=st["plot_backend"],
+                                  actual=rc["backend"])
         # the next process sees the durable values again
         st2 = results[2]["settings"]
         for k, val in ms.items():
